@@ -579,6 +579,113 @@ func addStopUnreadyPair(r *R, sc *Scenario) {
 	sc.Clients = append(sc.Clients, Client{Name: "stopper", Ops: []Op{{AtMs: stopAt, Op: "stop", Arg: "ux"}}})
 }
 
+func init() {
+	register(&PropDef{ID: "C18", Rule: "the real ProcessLogBuffer under 1-3 writer tasks, reader tasks issuing (offset, limit) pairs from -3..len+3 and 0-3 followers (tail 0..len+2, unsubscribing after a seeded time); arms: concurrent (porcupine linearizability of Write/GetLogRange against a sequential log + follower sequence oracle), grid (exhaustive (offset, limit) grid on logs of 0-12 lines), trim (window bounds while writing past log_length+slack); non-trivial = at least two tasks overlapped on the buffer, or a grid/trim arm; distinct = distinct trace hash",
+		Gen: func(seed uint64, idx int, tier string) *Scenario {
+			sc, r := baseScenario("C18", seed)
+			sc.Observe = false
+			spec := &LogBufSpec{}
+			sc.LogBuf = spec
+			sc.Strategy = genStrategy(r)
+			sc.Strategy.StallPermille = 0
+			switch r.Intn(10) {
+			case 0:
+				sc.Arm = "grid"
+				spec.Size = Pick(r, 0, 5, 20, 1000)
+				spec.Grid = r.Range(0, 12)
+				return sc
+			case 1:
+				sc.Arm = "trim"
+				spec.Size = Pick(r, 0, 1, 5, 20, 50)
+				spec.Trim = spec.Size*3 + r.Range(150, 450)
+				return sc
+			}
+			sc.Arm = "concurrent"
+			spec.Size = Pick(r, 40, 100, 1000)
+			nw := r.Range(1, 3)
+			total := 0
+			for i := 0; i < nw; i++ {
+				w := LBWriter{Lines: r.Range(1, 8), GapMs: Pick(r, 0, 0, 1, 10), StartMs: Pick(r, 0, 0, 5)}
+				total += w.Lines
+				spec.Writers = append(spec.Writers, w)
+			}
+			for i := 0; i < r.Range(0, 2); i++ {
+				rd := LBReader{GapMs: Pick(r, 0, 0, 1, 7)}
+				for k := 0; k < r.Range(1, 5); k++ {
+					rd.Calls = append(rd.Calls, [2]int{r.Range(-3, total+3), r.Range(-3, total+3)})
+				}
+				spec.Readers = append(spec.Readers, rd)
+			}
+			for i := 0; i < r.Range(0, 3); i++ {
+				spec.Subs = append(spec.Subs, LBSub{AtMs: Pick(r, 0, 0, 1, 5, 20), Tail: r.Range(0, total+2), ForMs: Pick(r, -1, 0, 3, 10, 50)})
+			}
+			return sc
+		},
+		Check: checkC18,
+		NonTrivial: func(sc *Scenario, res *RunResult, t *Truth) bool {
+			return sc.Arm != "concurrent" || res.Out.Contended > 0 || res.Out.Preemptions > 0
+		},
+	})
+}
+
+func init() {
+	register(&PropDef{ID: "C11", Rule: "1-3 processes with seeded output scripts (0-300 unique lines over both streams, 4-100 kB lines, bursts at the instant of exit, a final line without newline, several lines per write), restarts, adversarial pipe chunking, pipes held open by a child, logger configurations (per-process / unified file, JSON / plain, flush_each_line); after the commands ended the in-memory log and the log files are compared line by line with what the simulated kernel saw written; non-trivial = at least 3 lines were written; distinct = distinct trace hash",
+		Gen: func(seed uint64, idx int, tier string) *Scenario {
+			sc, r := baseScenario("C11", seed)
+			k := lifecycleKnobs()
+			k.MinProcs, k.MaxProcs = 1, 3
+			k.Finite = true
+			k.EdgeP = 100
+			k.RestartP = 400
+			k.StartFailP = 0
+			k.MaxLifeMs = 3000
+			k.Conds = []string{"process_completed", "process_started"}
+			GenCore(r, k, sc)
+			sc.Arm = "natural"
+			sc.RunForMs = 600000
+			sc.QuietMs = 2000
+			sc.Strategy.StallMaxMs = Pick(r, 5, 50)
+			sc.Project.LogLength = Pick(r, 0, 0, 5000, 30, 5)
+			switch r.Intn(4) {
+			case 0:
+				sc.Project.LogLocation = "project.log"
+			case 1:
+				sc.Project.LogLocation = "project.log"
+				sc.Project.LogNoJSON = true
+			}
+			sc.Project.LogFlush = r.P(300)
+			for _, p := range sc.Project.Procs {
+				if r.P(400) {
+					p.LogLocation = p.Name + ".log"
+				}
+				ts := sc.Scripts[p.Token]
+				// one script per possible launch: the line ids must be unique across restarts
+				for (p.Restart == "always" || p.Restart == "on_failure") && len(ts.Launches) < p.MaxRestarts+1 {
+					ts.Launches = append(ts.Launches, ts.Launches[len(ts.Launches)-1])
+				}
+				for l := range ts.Launches {
+					ts.Launches[l].Out = nil
+					ts.Launches[l].Children = nil
+					genOutput(r, &ts.Launches[l], p.Name, l)
+					if r.P(80) {
+						// a background child keeps the pipes open for a while after the exit
+						ts.Launches[l].Children = []simos.Script{{LifeMs: ts.Launches[l].LifeMs + Pick(r, 100, 1000), HoldsPipes: true}}
+					}
+				}
+			}
+			return sc
+		},
+		Check: checkC11,
+		NonTrivial: func(sc *Scenario, res *RunResult, t *Truth) bool {
+			n := 0
+			for _, in := range t.Insts {
+				n += len(in.Writes)
+			}
+			return n >= 3
+		},
+	})
+}
+
 func sortOut(o []simos.OutChunk) {
 	for i := 1; i < len(o); i++ {
 		for j := i; j > 0 && o[j].AtMs < o[j-1].AtMs; j-- {
